@@ -73,7 +73,12 @@ class ProjectSettings:
 
     @sim_end.setter
     def sim_end(self, sim_end):
-        self._sim_end = self.sim_start + np.ceil((sim_end - self.sim_start) / self.sim_dt) * self.sim_dt
+        n_steps = (sim_end - self.sim_start) / self.sim_dt
+        if abs(n_steps - np.round(n_steps)) < 1e-9:
+            n_steps = np.round(n_steps)  # Guard against floating point error adding an extra timestep e.g. 10.5/0.7 = 15.000000000000002
+        else:
+            n_steps = np.ceil(n_steps)
+        self._sim_end = self.sim_start + n_steps * self.sim_dt
         if sim_end != self._sim_end:
             logger.info(f"Changing sim end from {sim_end} to {self._sim_end} ({(self._sim_end - self._sim_start) / self._sim_dt:.0f} timesteps)")
 
